@@ -335,13 +335,19 @@ def analyze(ctx, want):
                 keep = S.fstr(dv[3][0]) == "dfa.patterns" and S.fstr(dv[3][1]) == "dfa.terminal_ids" and S.fstr(dv[3][4]) == "dfa.lookaheads"
                 ob("C03.g", "patterns-priorities-lookaheads-kept", keep, "patterns=%s terminal_ids=%s lookaheads=%s" % (S.fstr(dv[3][0]), S.fstr(dv[3][1]), S.fstr(dv[3][4])), cp.loc())
     # comparator: the group containing state 0 sorts first
-    cmpc = [c for c in F.closures_of(cp) if c.argc == 3]
-    for c in cmpc:
+    cmpc = [(c, 2) for c in F.closures_of(cp) if c.argc == 3]
+    # (the comparator may also be a named function handed to sort_by)
+    for p in paths:
+        for e in p.calls(r"::sort_by(::<.*>)?$|::sort_unstable_by(::<.*>)?$"):
+            fv = e[3][-1]
+            if fv[0] == "fn" and fv[1] in F.fns and not any(c is F.fns[fv[1]] for c, _ in cmpc):
+                cmpc.append((F.fns[fv[1]], 1))
+    for c, first in cmpc:
         ex2, ps = run_fn(c, F, LogModel(), inline=r"ids::StateID::new$")
         rows = {}
         for q in ret_paths(ps):
             conds = []
-            na, nb = c.names().get(2, "arg2"), c.names().get(3, "arg3")
+            na, nb = c.names().get(first, "arg%d" % first), c.names().get(first + 1, "arg%d" % (first + 1))
             for cc, o in q.conds:
                 who = "a" if S.mentions(cc, lambda x: x == ("sym", na)) else ("b" if S.mentions(cc, lambda x: x == ("sym", nb)) else "?")
                 has0 = S.mentions(cc, lambda x: x == ("int", 0)) and cc[0] == "app" and "contains" in cc[1]
